@@ -141,6 +141,31 @@ func (w *World) setupCallbacks() {
 		}
 		w.ev["framed_values"]++
 	}
+	if w.c.Cfg.Masked {
+		// A length-preserving but byte-changing value representation ("write item
+		// bytes differently"): every value byte is stored XOR 0x5A.  Everything the API
+		// returns must be what it returns without the callbacks.
+		mask := func(b []byte) []byte {
+			o := make([]byte, len(b))
+			for i, x := range b {
+				o[i] = x ^ 0x5A
+			}
+			return o
+		}
+		cbs.ItemValWrite = func(c *g.Collection, i *g.Item, wr io.WriterAt, off int64) error {
+			w.ev["cb_masked_write"]++
+			_, err := wr.WriteAt(mask(i.Val), off)
+			return err
+		}
+		cbs.ItemValRead = func(c *g.Collection, i *g.Item, r io.ReaderAt, off int64, n uint32) error {
+			buf := make([]byte, n)
+			if _, err := r.ReadAt(buf, off); err != nil {
+				return err
+			}
+			i.Val = mask(buf)
+			return nil
+		}
+	}
 	if bits&CbBeforeWrite != 0 {
 		cbs.BeforeItemWrite = func(c *g.Collection, i *g.Item) (*g.Item, error) {
 			w.ev["cb_beforewrite"]++
